@@ -43,6 +43,7 @@ pub struct Tables {
     pub ghost_structs: BTreeMap<String, Vec<(String, String)>>, // struct -> (field, init)
     pub dropped_fields: BTreeMap<String, Vec<String>>,
     pub unit_fns: BTreeSet<String>,
+    pub arc_fields: BTreeSet<String>,
 }
 
 pub const ATOMIC_METHODS: &[&str] = &[
@@ -539,6 +540,7 @@ impl<'a> Elab<'a> {
                     vec![Stmt::Expr(e2, m.semi_token)]
                 }
             }
+            Stmt::Item(Item::Use(_)) => vec![],
             Stmt::Item(i) => {
                 self.unsupported("nested item", i.span());
                 vec![]
@@ -571,6 +573,23 @@ impl<'a> Elab<'a> {
                 }
                 _ => None,
             };
+            let alias_target = alias_target.or_else(|| match peel_paren(&init_expr) {
+                Expr::MethodCall(m) if m.method == "clone" && m.args.is_empty() => match last_field(&m.receiver) {
+                    Some(f) if self.t.arc_fields.contains(&f) => Some((*m.receiver).clone()),
+                    _ => None,
+                },
+                Expr::Call(c) if c.args.len() == 1 => {
+                    let is_arc_clone = matches!(&*c.func, Expr::Path(p) if path_to_string(&p.path) == "Arc::clone");
+                    match (is_arc_clone, peel_paren(&c.args[0])) {
+                        (true, Expr::Reference(r)) => match last_field(&r.expr) {
+                            Some(f) if self.t.arc_fields.contains(&f) => Some((*r.expr).clone()),
+                            _ => None,
+                        },
+                        _ => None,
+                    }
+                }
+                _ => None,
+            });
             if let Some(t) = alias_target {
                 let t2 = self.fold_expr(t);
                 self.bind_alias(n, t2);
@@ -714,6 +733,44 @@ impl<'a> Elab<'a> {
         }
         if !self.ctl {
             self.unsupported(".await in a non-async function", sp);
+        }
+        // `X.interact(|p| BODY).await` (SyncWrapper): the closure runs to completion on the wrapped value while the caller
+        // awaits; thread placement is not modelled (C14).  ⇒  begin (may fail / unwind), run BODY inline, Ok(result)
+        if let Expr::MethodCall(m) = peel_paren(&base) {
+            if self.u.inlinecall.iter().any(|n| m.method == n) && m.args.len() == 1 {
+                if let Expr::Closure(cl) = &m.args[0] {
+                    if cl.inputs.len() == 1 {
+                        let pat = match &cl.inputs[0] {
+                            Pat::Type(pt) => (*pt.pat).clone(),
+                            other => other.clone(),
+                        };
+                        let key = self.next_key("await");
+                        let recv = self.fold_expr((*m.receiver).clone());
+                        let begin = format_ident!("{}_begin_", m.method);
+                        let target = format_ident!("{}_target_", m.method);
+                        let drops = self.all_drops();
+                        let saved = self.env.clone();
+                        let mut names = vec![];
+                        Self::pat_idents(&pat, &mut names);
+                        for n in names.iter() {
+                            self.unbind(n);
+                        }
+                        let body = self.fold_expr((*cl.body).clone());
+                        self.env.aliases = saved.aliases;
+                        let pat = self.fold_pat(pat);
+                        let after = self.ghost_marker("after", &key);
+                        let wrap: Expr = match after {
+                            Some(g) => parse_quote!({ let __r = Ok(__b); #g __r }),
+                            None => parse_quote!(Ok(__b)),
+                        };
+                        return parse_quote!(match #recv.#begin() {
+                            Ctl::Unwind => { #(#drops)* return Ctl::Unwind; }
+                            Ctl::Done(Err(__e)) => Err(__e),
+                            Ctl::Done(Ok(())) => { let #pat = #recv.#target(); let __b = #body; #wrap }
+                        });
+                    }
+                }
+            }
         }
         let key = self.next_key("await");
         let callee: Expr = if internal || ext_call {
@@ -884,6 +941,28 @@ impl<'a> Elab<'a> {
                     self.env = saved;
                     let pat = self.fold_pat(pat);
                     return parse_quote!(match #recv { Ok(__v) => Ok(__v), Err(#pat) => Err(#body) });
+                }
+            }
+        }
+        // `X.and_then(|p| B)` on a Result → `match X { Ok(p) => B, Err(e) => Err(e) }`
+        if method == "and_then" && m.args.len() == 1 {
+            if let Expr::Closure(cl) = &m.args[0] {
+                if cl.inputs.len() == 1 {
+                    let pat = match &cl.inputs[0] {
+                        Pat::Type(pt) => (*pt.pat).clone(),
+                        other => other.clone(),
+                    };
+                    let recv = self.fold_expr((*m.receiver).clone());
+                    let saved = self.env.clone();
+                    let mut names = vec![];
+                    Self::pat_idents(&pat, &mut names);
+                    for n in names.iter() {
+                        self.unbind(n);
+                    }
+                    let body = self.fold_expr((*cl.body).clone());
+                    self.env = saved;
+                    let pat = self.fold_pat(pat);
+                    return parse_quote!(match #recv { Ok(#pat) => #body, Err(__e) => Err(__e) });
                 }
             }
         }
@@ -1600,6 +1679,10 @@ impl<'a> Elab<'a> {
                 }
                 Err(_) => self.unsupported("matches! arguments", m.span()),
             }
+        }
+        if name == "format" && self.u.strlits {
+            // the text of a formatted message is opaque
+            return parse_quote!(vx_format());
         }
         if name == "format" || name == "vec" || name == "unreachable" || name == "panic" {
             self.unsupported(&format!("macro {}!", name), m.span());
